@@ -24,7 +24,9 @@ def gen_case(rng, params):
         else:
             ops.append(f"wp+:{pat.wire()}")
             ops += [f"rup:-:{opt(g.timeout_choice(rng))}" for _ in range(n_cmds)]
-            ops.append("wp-")
+            ops.append(rng.choice(["wp-", "wp-!"]))
+            if rng.random() < 0.3:
+                ops.append(f"rup:-:{opt(g.timeout_choice(rng))}")   # the previous prompt is back in force
     else:
         if per_call:
             if rng.random() < 0.5:
